@@ -45,11 +45,23 @@ def run(ctx):
             first = False
         out = ctx.vh("cache-tours", {"config": conf, "tours": tl}, timeout=6000)
         ctx.add_result(out)
+    # second part: the commit store and the caching commit provider (CommitCache.tla), every transition replayed
+    # from its materialised pre-state
+    res = ctx.tlc_must_hold("cache", "MCCommitCache", "CommitCache.cfg", emit_tags=("EDGE",), timeout=3000, constants={"Emit": "TRUE"})
+    cedges = res["emit"]["EDGE"]
+    if len(cedges) < res["generated"] - 1:
+        raise vlib.Infra("edge emission incomplete: %d of %d" % (len(cedges), res["generated"]))
+    neg = ctx.vh("commit-replay", {"edges": cedges, "corrupt": True})
+    if not neg["violations"]:
+        raise vlib.Infra("negative control of the commit store replay failed")
+    out = ctx.vh("commit-replay", {"edges": cedges}, timeout=6000)
+    ctx.add_result(out, kind="commit-store")
     ctx.exhaustive = True
     ctx.assumptions += [
+        "commit store: two keys, nine contents per file (absent, valid, valid with another digest, six unusable forms); puts fail as a whole (the put is atomic); the delegate is an in-process provider",
         "one cache entry; module files copied one after the other (thread parallelism 1) so that every storage operation is one specification step",
         "locks are an in-process table behind filelock.Locker whose acquisition order is dictated by the tour; the real flock implementation is exercised by the multi-process stage of the thorough tier only",
         "write faults are injected at Put / first Write of module files and at the Put of the marker; failures inside the disk atomic writer itself are covered by C15",
         "a crashed process is a goroutine parked for good at the operation it was about to perform",
     ]
-    return vlib.finish(ctx, rule="every transition of ModuleCache.tla for each configuration (layout dir/tar, 2-3 processes put/get, 1-3 files, <=2 faults, <=2 crashes, <=1 tamper), covered by tours replayed on real ModuleDataStore instances over one real disk bucket; after every step the cache directory is classified and compared; distinct = tours")
+    return vlib.finish(ctx, rule="every transition of ModuleCache.tla for each configuration (layout dir/tar, 2-3 processes put/get, 1-3 files, <=2 faults, <=2 crashes, <=1 tamper), covered by tours replayed on real ModuleDataStore instances over one real disk bucket; after every step the cache directory is classified and compared; plus every transition of CommitCache.tla (put, get by module key / commit key, caching provider with failing delegate / failing put, over every content of two commit files) replayed on the real CommitStore and CommitProvider; distinct = tours + commit-store transitions")
